@@ -33,6 +33,9 @@ def check(chk, thorough=False):
     chk.run('C20.j', 'R-FRESH', 'the queues and reassembly table of a BTP-U agent belong to that agent object (created per instance, no shared default objects)', lambda ob: (__import__('sa.props.common', fromlist=['per_instance_state', 'fresh_defaults']).per_instance_state(tree, ob, 'btpu/agent.py', ('Agent',)), __import__('sa.props.common', fromlist=['per_instance_state', 'fresh_defaults']).fresh_defaults(tree, ob, ['btpu/agent.py', 'btpu/messages.py', 'btpu/config.py'])), floor=3)
     chk.run('C20.k', 'R-ORDER', 'a bundle that cannot be sent costs that bundle only: the head item leaves the TX queue before it is worked on', lambda ob: __import__('sa.props.common', fromlist=['tx_queue_head_leaves_first']).tx_queue_head_leaves_first(tree, ob, 'btpu/agent.py'), floor=1)
     chk.run('C20.l', 'R-GUARD', 'the TX worker is started whenever the queue holds something (not only for the first item): a failed send does not leave the bundles behind it waiting for ever', lambda ob: __import__('sa.props.common', fromlist=['tx_trigger_whenever_nonempty']).tx_trigger_whenever_nonempty(tree, ob, 'btpu/agent.py'), floor=1)
+    chk.run('C20.m', 'R-WHO', 'every transfer gets a number of its own: the number of a queued item is given by _add_tx_item from the counter (which it then advances), never pre-set by the send entry', lambda ob: c20m(tree, ob), floor=2)
+    chk.run('C20.n', 'R-FLOW', 'the frame payload is the message set as built: a sender functor puts exactly the octets it is given on the link (nothing appended or re-wrapped)', lambda ob: c20n(tree, ob), floor=1)
+    chk.run('C20.o', 'R-GUARD', 'whether a bundle fits is decided where the MTU is known: the send entries refuse nothing because of its size (a large bundle is segmented)', lambda ob: c20o(tree, ob), floor=2)
     chk.run('C20.e', 'R-TRUTH', 'the end index is tested with "is not None": zero is a legitimate end index', lambda ob: c20e(tree, ob), floor=1)
 
 
@@ -366,3 +369,74 @@ def c20e(tree, ob):
                 n += 1
                 ob.site(BAGENT, node.ast, 'end index tested with "is None"')
     ob.require(n >= 1, 'no test of the end index found')
+
+
+def c20m(tree, ob):
+    AG = 'btpu/agent.py'
+    fa = FuncView(tree, AG, 'Agent._add_tx_item')
+    sets = [n for n in walk_local(fa.func) if isinstance(n, ast.Assign) and any(src(t) == 'item.transfer_id' for t in n.targets)]
+    st = one(sets, 'item.transfer_id = ... in _add_tx_item', ob)
+    val = fa.value_at(st.value, st, depth=2)
+    incs = [n for n in walk_local(fa.func) if isinstance(n, ast.AugAssign) and isinstance(n.op, ast.Add) and src(n.target) == 'self._tx_id' and src(n.value) == '1']
+    if src(val) in ('copy.copy(self._tx_id)', 'self._tx_id') and incs and fa.dominates(st, incs[0])[0]:
+        ob.site(AG, st, '_add_tx_item numbers the item from the counter and advances it')
+    else:
+        ob.violate(AG, fa.qual, src(st)[:70], 'the transfer number is not taken from the counter and the counter advanced behind it', st)
+    n = 0
+    for (r, qual, func) in tree.all_functions([AG]):
+        if qual == fa.qual:
+            continue
+        for c in calls_in(func):
+            if (call_name(c) or '').split('.')[-1] == 'BundleItem':
+                n += 1
+                pre = kwarg(c, 'transfer_id')
+                if pre is not None and not (isinstance(pre, ast.Constant) and pre.value is None) and any('tx' in src(x).lower() for x in ast.walk(pre) if isinstance(x, ast.Attribute)):
+                    ob.violate(AG, qual, 'BundleItem(transfer_id={})'.format(src(pre)[:40]), 'the send entry pre-sets the transfer number from the TX counter: _add_tx_item then neither assigns nor advances it, every '
+                               'transfer goes out under the same number and the receiver merges the segments of overlapping transfers (or drops the later one as a repeat)', c, sure=True)
+                else:
+                    ob.site(AG, c, qual + ': item built without a transfer number')
+        for stx in walk_local(func):
+            if isinstance(stx, ast.Assign) and any(isinstance(t, ast.Attribute) and t.attr == 'transfer_id' for t in stx.targets) and 'self._tx_id' in src(stx.value):
+                ob.violate(AG, qual, src(stx)[:70], 'a transfer number is taken from the TX counter outside _add_tx_item (the counter is not advanced behind it)', stx, sure=True)
+    ob.require(n >= 1, 'BundleItem constructions in btpu/agent.py: {}'.format(n))
+
+
+def c20n(tree, ob):
+    AG = 'btpu/agent.py'
+    n = 0
+    for node in tree.module(AG).tree.body:
+        if not (isinstance(node, ast.ClassDef) and node.name.endswith('Sender')):
+            continue
+        for m in node.body:
+            if not (isinstance(m, ast.FunctionDef) and m.name == '__call__' and len(m.args.args) >= 2):
+                continue
+            n += 1
+            dp = m.args.args[1].arg
+            qual = node.name + '.__call__'
+            stores = [x for x in walk_local(m) if isinstance(x, ast.Name) and x.id == dp and isinstance(x.ctx, ast.Store)]
+            # a plain conversion of the parameter (bytes(data)) is the same octets
+            stores = [x for x in stores if not (isinstance(enclosing(x, (ast.Assign,)), ast.Assign) and src(enclosing(x, (ast.Assign,)).value) in ('bytes({})'.format(dp), 'bytearray({})'.format(dp), 'memoryview({})'.format(dp)))]
+            if stores:
+                st = enclosing(stores[0], (ast.Assign, ast.AugAssign)) or stores[0]
+                ob.violate(AG, qual, src(st)[:70], 'the sender changes the octets it was given before they go on the link (padding appended, re-wrapped): the message set that arrives is not the one '
+                           'that was built, and where building the addition fails the frame -- the end of a transfer -- is never sent', st, sure=True)
+            else:
+                ob.site(AG, m, qual + ' sends the octets it is given')
+    ob.require(n >= 1, 'sender functors in btpu/agent.py: {}'.format(n))
+
+
+def c20o(tree, ob):
+    AG = 'btpu/agent.py'
+    for qual in ('Agent.send_bundle_data', 'Agent.send_bundle_fileobj'):
+        fv = FuncView(tree, AG, qual)
+        bad = None
+        for r in walk_local(fv.func):
+            if isinstance(r, ast.Raise):
+                fs = fv.facts(r) or ()
+                if any('len(' in t or 'total_length' in t or 'tell()' in t for (t, pol) in fs):
+                    bad = r
+        if bad is not None:
+            ob.violate(AG, qual, src(bad)[:70], 'the send entry refuses a bundle because of its size: it does not know the MTU the transfer will be cut by, so a bundle that would be sent in '
+                       'segments (any size with an MTU configured) is refused as too large for one message', bad, sure=True)
+        else:
+            ob.site(AG, fv.func, qual + ' refuses nothing by size')
